@@ -44,6 +44,15 @@ type MultiBucketBackend struct {
 
 var _ gofakes3.Backend = &MultiBucketBackend{}
 
+const (
+	// multiBucketsDir is where the buckets live, relative to the backend's Fs.
+	multiBucketsDir = "buckets"
+
+	// multiUploadsDir holds objects while they are being received, relative
+	// to the backend's Fs. See PutObject.
+	multiUploadsDir = "uploads"
+)
+
 func MultiBucket(fs afero.Fs, opts ...MultiOption) (*MultiBucketBackend, error) {
 	if err := ensureNoOsFs("fs", fs); err != nil {
 		return nil, err
@@ -56,7 +65,7 @@ func MultiBucket(fs afero.Fs, opts ...MultiOption) (*MultiBucketBackend, error) 
 		}
 	}
 
-	bucketsFs, err := NewBasePathFs(fs, "buckets", FsPathCreateAll)
+	bucketsFs, err := NewBasePathFs(fs, multiBucketsDir, FsPathCreateAll)
 	if err != nil {
 		return nil, err
 	}
@@ -491,30 +500,39 @@ func (db *MultiBucketBackend) PutObject(
 	objectFilePath := filepath.FromSlash(objectPath)
 	objectDir := filepath.Dir(objectFilePath)
 
-	if objectDir != "." {
-		if err := db.bucketFs.MkdirAll(objectDir, db.dirMode); err != nil {
-			return result, err
-		}
+	// The body is written to a temporary file outside the buckets and only
+	// moved into place once it has arrived in full and the reader's checks
+	// (length, Content-MD5) have passed. Writing to the destination directly
+	// would truncate the stored object before the upload is known to be good,
+	// and would let a concurrent reader of the old object, or a copy of the
+	// object onto itself, see a partially written file.
+	if err := db.baseFs.MkdirAll(multiUploadsDir, db.dirMode); err != nil {
+		return result, err
 	}
-
-	f, err := db.bucketFs.Create(objectFilePath)
+	f, err := afero.TempFile(db.baseFs, multiUploadsDir, "put-")
 	if err != nil {
 		return result, err
 	}
+	tmpFilePath := f.Name()
 
-	var closed bool
+	var closed, committed bool
 	defer func() {
 		// Unfortunately, afero's MemMapFs updates the mtime if you double-close, which
 		// highlights that other afero.Fs implementations may have side effects here::
 		if !closed {
 			f.Close()
 		}
+		if !committed {
+			db.baseFs.Remove(tmpFilePath)
+		}
 	}()
 
 	hasher := md5.New()
 	w := io.MultiWriter(f, hasher)
-	if _, err := io.Copy(w, input); err != nil {
+	if n, err := io.Copy(w, input); err != nil {
 		return result, err
+	} else if n != size {
+		return result, gofakes3.ErrIncompleteBody
 	}
 
 	// We have to close here before we stat the file as some filesystems don't update the
@@ -523,6 +541,16 @@ func (db *MultiBucketBackend) PutObject(
 		return result, err
 	}
 	closed = true
+
+	if objectDir != "." {
+		if err := db.bucketFs.MkdirAll(objectDir, db.dirMode); err != nil {
+			return result, err
+		}
+	}
+	if err := db.baseFs.Rename(tmpFilePath, filepath.Join(multiBucketsDir, objectFilePath)); err != nil {
+		return result, err
+	}
+	committed = true
 
 	stat, err := db.bucketFs.Stat(objectFilePath)
 	if err != nil {
